@@ -136,7 +136,8 @@ dump_dw (value const &v)
 	<< ",\"cooked\":" << (d->get_doneness () == doneness::cooked ? "true" : "false")
 	<< ",\"imp\":[";
       bool first = true;
-      for (auto imp = d->get_import (); imp != nullptr; imp = imp->get_import ())
+      for (auto imp = d->is_cooked () ? d->get_import () : nullptr; imp != nullptr;
+	   imp = imp->is_cooked () ? imp->get_import () : nullptr)
 	{
 	  Dwarf_Die idie = imp->get_die ();
 	  o << (first ? "" : ",") << dwarf_dieoffset (&idie);
